@@ -97,7 +97,7 @@ type Alloc interface {
 
 var c15Twins = [][2]string{{"A1", "A2"}, {"B1", "B2"}, {"C1", "C2"}, {"D1", "D2"}, {"E1", "E2"}, {"F1", "F2"}}
 
-var c15Prefixes = []string{"s", "s1", "io", "ret", "x", "x1", "ctx", "err", "n", "template", "template0", "http", "val", "_m", "a", "a1", "a10", "context", "xio", "htmpl", "r", "t", "h", "b", "e"}
+var c15Prefixes = []string{"s", "s1", "io", "ret", "x", "x1", "ctx", "err", "n", "template", "template0", "http", "val", "_m", "a", "a1", "a10", "context", "xio", "htmpl", "r", "t", "h", "b", "e", "_", ""}
 
 // path → package name (a path has one package name)
 var c15ImportPool = [][2]string{
@@ -217,9 +217,6 @@ func c15Oracle(h c15History, o c15Out) *c15Violation {
 			trig := fmt.Sprintf("allocation #%d of a prefix", min(allocCount[op.A]/2+1, 12))
 			if known[op.Scope][r.S] {
 				return &c15Violation{"allocated-name-collides", "AllocateName", trig, "a name different from every name visible or allocated before in the scope", at(fmt.Sprintf("returned %q, which is already taken", r.S))}
-			}
-			if r.S == "" {
-				return &c15Violation{"allocated-name-empty", "AllocateName", trig, "a name", at("empty string")}
 			}
 			known[op.Scope][r.S] = true
 		case "add":
